@@ -24,12 +24,47 @@ def hexDigits16 (n : Nat) : String :=
 
 def sortStrs (xs : List String) : List String := xs.foldr insertStr []
 
+def showF (b : Nat) : String := if F64.isNaN b then "Fnan" else "F" ++ hexDigits16 b
+
+def showV : QueryAgg.Val → String
+  | .null => "N"
+  | .int i => s!"I{i}"
+  | .str s => "S" ++ hexBytes (s.toList.map (·.toNat))
+  | .float b => showF b
+
+def parseHexNat (s : String) : Option Nat :=
+  s.toList.foldl (fun acc c => do
+    let a ← acc
+    let d ← hexVal c
+    pure (16 * a + d)) (some 0)
+
+/-- `id:l.l:k=v&k=v`; a value `F<16 hex>` is a float: it goes to the float table, not to the node -/
+def parseNodeF (s : String) : Option (Node × FloatTab) := do
+  match s.splitOn ":" with
+  | [id, ls, ps] =>
+    let id ← id.toNat?
+    let labels ← if ls == "" then some [] else (ls.splitOn ".").mapM (·.toNat?)
+    let kvs ← if ps == "" then some [] else (ps.splitOn "&").mapM (fun kv =>
+      match kv.splitOn "=" with
+      | [k, v] => do pure (← k.toNat?, v)
+      | _ => none)
+    let isF := fun (v : String) => v.toList.head? == some 'F'
+    let fl ← (kvs.filter (fun kv => isF kv.2)).mapM (fun kv => do
+      pure (id, kv.1, ← parseHexNat (String.ofList (kv.2.toList.drop 1))))
+    let props ← (kvs.filter (fun kv => !isF kv.2)).mapM (fun kv => do pure (kv.1, ← parseVal kv.2))
+    pure (⟨id, labels, props⟩, fl)
+  | _ => none
+
+def parseGraphF (nodes edges : String) : Option (Graph × FloatTab) := do
+  let ns ← parseList parseNodeF nodes
+  pure (⟨ns.map (·.1), ← parseList parseEdge edges⟩, (ns.map (·.2)).flatten)
+
 def showA : AVal → String
   | .null => "N"
   | .int i => s!"I{i}"
   | .str s => "S" ++ hexBytes (s.toList.map (·.toNat))
-  | .float b => if F64.isNaN b then "Fnan" else "F" ++ hexDigits16 b
-  | .list l => "L[" ++ joinWith "," (sortStrs (l.map showVal)) ++ "]"
+  | .float b => showF b
+  | .list l => "L[" ++ joinWith "," (sortStrs (l.map showV)) ++ "]"
 
 def showARows (ordered : Bool) (rows : List (List AVal)) : String :=
   let rs := rows.map (fun r => joinWith "|" (r.map showA))
@@ -87,16 +122,29 @@ def itemIsSumAvg : Item → Bool
   | .agg .avg _ _ => true
   | _ => false
 
-def aggSig (q : AggQ) (ordered : Bool) (m s : Res) : String :=
+/-- the kinds of deviation that remain open, in the order they are looked for -/
+def aggSig (ft : FloatTab) (g : Graph) (q : AggQ) (ordered : Bool) (m s : Res) : String :=
   let sh := showRes ordered
   match s with
   | .error "type" => "agg-non-number-summed"
   | _ =>
     let m' := resMapRows (toReturnOrder q.items) m
+    let kept := (Pipe.bindings g q.core).filter (passes q.preds)
+    let floatKey := kept.any (fun b => (keyVals ft q b).any isFloat)
     if sh m' == sh s then "agg-key-columns-first"
-    else if q.items.any itemHasMinMax then "agg-min-max-numeric-text"
-    else if q.items.any itemIsSumAvg then "agg-avg-double-rounding"
-    else "agg-differs"
+    else if floatKey then "agg-float-key-as-bits"
+    else
+      -- the first aggregate that deviates on its own (same keys, this aggregate only)
+      let alone := (aggItems q.items).filter (fun it =>
+        let q1 : AggQ := { q with items := keyItems q.items ++ [it], orderBy := [], skip := none, limit := none }
+        showRes false (Pipe.execAgg ft g q1) != showRes false (Spec.evalAgg ft g q1))
+      match alone.head? with
+      | some it =>
+        let fl := kept.any (fun b => isFloat (srcVal ft b (itemSrc it)))
+        if itemHasMinMax it then (if fl then "agg-min-max-int-float" else "agg-min-max-numeric-text")
+        else if itemIsSumAvg it then (if fl then "agg-float-accumulation" else "agg-avg-double-rounding")
+        else "agg-differs"
+      | none => "agg-differs"
 
 def parseOrderKey (s : String) : Option (Option (Nat × Bool)) :=
   if s == "-" then some none
@@ -128,17 +176,30 @@ def mkOut (ordered : Bool) (m s : Res) (sig : Unit → String) : Proto.Out :=
 def handle (args : List String) : Option Proto.Out :=
   match args with
   | ["agg", nodes, edges, start, hops, preds, items, ord, skip, lim, lang] => do
-    let g : Graph := ⟨← parseList parseNode nodes, ← parseList parseEdge edges⟩
+    let (g, ft) ← parseGraphF nodes edges
     let _ ← parseLang lang
     let q : AggQ := { start := ⟨← optNat start⟩, hops := ← parseList parseHop hops, preds := ← parseList parsePred preds,
                       items := ← parseList parseItem items, orderBy := ← parseOrd ord,
                       skip := ← optNat skip, limit := ← optNat lim }
     let ordered := !q.orderBy.isEmpty
-    let m := Pipe.execAgg g q
-    let s := Spec.evalAgg g q
-    pure (mkOut ordered m s (fun _ => aggSig q ordered m s))
+    let m := Pipe.execAgg ft g q
+    let s := Spec.evalAgg ft g q
+    pure (mkOut ordered m s (fun _ => aggSig ft g q ordered m s))
+  -- statistics aid: does some group of this `agg` line hold an Int64 and a Float64 in one aggregated
+  -- column (`mixed`), floats only in some column (`float`), or neither (`plain`)?
+  | ["aggmix", nodes, edges, start, hops, preds, items, _ord, _skip, _lim, _lang] => do
+    let (g, ft) ← parseGraphF nodes edges
+    let q : AggQ := { start := ⟨← optNat start⟩, hops := ← parseList parseHop hops, preds := ← parseList parsePred preds,
+                      items := ← parseList parseItem items, orderBy := [], skip := none, limit := none }
+    let kept := (Pipe.bindings g q.core).filter (passes q.preds)
+    let keys := dedupKeys (kept.map (keyVals ft q))
+    let cols := fun (k : List QueryAgg.Val) => (aggItems q.items).map (fun it =>
+      ((kept.filter (fun b => keyVals ft q b == k)).map (fun b => srcVal ft b (itemSrc it))))
+    let mixed := keys.any (fun k => (cols k).any (fun c => c.any isFloat && c.any isInt))
+    let anyF := keys.any (fun k => (cols k).any (fun c => c.any isFloat))
+    pure { model := if mixed then "mixed" else if anyF then "float" else "plain" }
   | ["gremlin", nodes, edges, start, hops, preds, order, skip, lim, proj, dedup, agg] => do
-    let g : Graph := ⟨← parseList parseNode nodes, ← parseList parseEdge edges⟩
+    let (g, ft) ← parseGraphF nodes edges
     let q : GremQ := { start := ⟨← optNat start⟩, hops := ← parseList parseHop hops, preds := ← parseList parsePred preds,
                        order := ← parseOrderKey order, skip := ← optNat skip, limit := ← optNat lim,
                        proj := ← optNat proj, dedup := ← parseDedup dedup, agg := ← parseGAgg agg }
@@ -147,7 +208,7 @@ def handle (args : List String) : Option Proto.Out :=
     let s := Spec.evalGremlin g q
     pure (mkOut ordered m s (fun _ => gremSig q s))
   | ["graphql", nodes, edges, label, hops, preds, cols, order, skip, first] => do
-    let g : Graph := ⟨← parseList parseNode nodes, ← parseList parseEdge edges⟩
+    let (g, ft) ← parseGraphF nodes edges
     let q : GqlQ := { label := ← label.toNat?, hops := ← parseList parseHop hops, preds := ← parseList parsePred preds,
                       cols := ← parseList parseVK cols, order := ← parseOrderKey order,
                       skip := ← optNat skip, first := ← optNat first }
@@ -159,7 +220,7 @@ def handle (args : List String) : Option Proto.Out :=
   -- the same question in the four languages: `label`-scan, outgoing typed hops, comparisons,
   -- one property of the last vertex; four answers `gql/cypher/gremlin/graphql`
   | ["cross", nodes, edges, label, hops, preds, key] => do
-    let g : Graph := ⟨← parseList parseNode nodes, ← parseList parseEdge edges⟩
+    let (g, ft) ← parseGraphF nodes edges
     let l ← label.toNat?
     let hs ← parseList parseHop hops
     let ps ← parseList parsePred preds
@@ -175,7 +236,7 @@ def handle (args : List String) : Option Proto.Out :=
     let s := joinWith "/" [sc, sc, showRes false (Spec.evalGremlin g gq), showRes false (Spec.evalGraphql g lq)]
     pure { model := m, spec := s, sig := if m == s then "-" else "cross-language-differs" }
   | ["gqlstar", nodes, edges, label, t1, t2] => do
-    let g : Graph := ⟨← parseList parseNode nodes, ← parseList parseEdge edges⟩
+    let (g, ft) ← parseGraphF nodes edges
     let m := Pipe.execStar g (← label.toNat?) (← t1.toNat?) (← t2.toNat?)
     let s := Spec.evalStar g (← label.toNat?) (← t1.toNat?) (← t2.toNat?)
     pure (mkOut false m s (fun _ => "graphql-siblings-differ"))
